@@ -61,6 +61,13 @@ func c16Gen(r *rand.Rand, tier string) []spec.Case {
 	for _, cc := range []string{"emptyKey", "emptyValue"} {
 		add(spec.C16Case{Cookie: "correct", CfgCookie: cc, Proto: "netrpc", TLS: "none", Sets: "legacy", MuxEnv: "unset", PreTest: true, Strace: true})
 	}
+	// ... and that test-mode serve had SyncStdio set (stdout/stderr swapped and restored around it): it still
+	// prints nothing, the first line on the real stdout is the real Serve's handshake line
+	for _, pr := range []string{"netrpc", "grpc"} {
+		for _, mx := range []string{"unset", "true"} {
+			add(spec.C16Case{Cookie: "correct", CfgCookie: "normal", Proto: pr, TLS: "none", Sets: pick(r, []string{"legacy", "versioned"}), MuxEnv: mx, PreTest: true, PreTestSync: true, Strace: mx == "true"})
+		}
+	}
 	for _, cc := range []string{"emptyKey", "emptyValue"} {
 		for _, ck := range []string{"correct", "unset", "empty"} {
 			add(spec.C16Case{Cookie: ck, CfgCookie: cc, Proto: pick(r, []string{"netrpc", "grpc"}), TLS: "none", Sets: "legacy", MuxEnv: "unset", Strace: true})
@@ -83,7 +90,7 @@ func c16Judge(c spec.Case, evs []spec.Event, d *Death) CaseResult {
 		return CaseResult{Verdict: "inconclusive", Inconcl: o.SetupErr}
 	}
 	res := CaseResult{Verdict: "held", Counters: map[string]int{}}
-	res.Class = fmt.Sprintf("cookie=%s cfg=%s %s tls=%s mux=%s traced=%v versions=%q pretest=%v sockdir=%q chatter=%v", p.Cookie, p.CfgCookie, p.Proto, p.TLS, p.MuxEnv, p.Strace, p.Versions, p.PreTest, p.SockDir, p.Chatter)
+	res.Class = fmt.Sprintf("cookie=%s cfg=%s %s tls=%s mux=%s traced=%v versions=%q pretest=%v/%v sockdir=%q chatter=%v", p.Cookie, p.CfgCookie, p.Proto, p.TLS, p.MuxEnv, p.Strace, p.Versions, p.PreTest, p.PreTestSync, p.SockDir, p.Chatter)
 	res.Sample = map[string]any{"case": p, "exited": o.Exited, "exit_code": o.ExitCode, "stdout": trunc(string(o.Stdout), 120), "sockets": len(o.Sockets), "binds": o.Binds, "listen_before_line": o.ListenBefore, "writes_to_fd1": o.Stdout1Writes}
 	viol := func(key, msg string) {
 		res.Verdict = "violated"
